@@ -172,7 +172,12 @@ func builtinMathRandom(call FunctionCall) Value {
 
 func builtinMathRound(call FunctionCall) Value {
 	number := call.Argument(0).float64()
-	value := math.Floor(number + 0.5)
+	// floor(x + 0.5) must not be computed in floating point: x + 0.5 is rounded
+	// (0.49999999999999994 and odd integers >= 2^52); x - floor(x) is exact.
+	value := math.Floor(number)
+	if number-value >= 0.5 {
+		value++
+	}
 	if value == 0 {
 		value = math.Copysign(0, number)
 	}
